@@ -23,6 +23,7 @@
 #include "evaluator/access/receiver_resolution.h"
 #include "evaluator/core/evaluator.h"
 #include "evaluator/core/helpers.h"
+#include "evaluator/functions/call.h"
 #include "generic_instantiation.h"
 #include <chrono> // v0.12.0: for std::chrono::milliseconds
 #include <cstdlib>
@@ -220,6 +221,8 @@ int64_t ExpressionEvaluator::evaluate_function_call_impl(const ASTNode *node) {
                     var.is_const = param->is_const;
 
                     interpreter_.current_scope().variables[param->name] = var;
+                    FunctionCallHelpers::apply_param_const_qualifiers(
+                        interpreter_, param);
                 }
 
                 // Future構造体を作成
@@ -339,6 +342,8 @@ int64_t ExpressionEvaluator::evaluate_function_call_impl(const ASTNode *node) {
                 var.is_const = param->is_const;
 
                 interpreter_.current_scope().variables[param->name] = var;
+                FunctionCallHelpers::apply_param_const_qualifiers(
+                    interpreter_, param);
             }
 
             // ラムダ本体を実行
@@ -499,6 +504,8 @@ int64_t ExpressionEvaluator::evaluate_function_call_impl(const ASTNode *node) {
                                 param_name, typed_val, param_type,
                                 param_type_name, is_unsigned);
                         }
+                        FunctionCallHelpers::apply_param_const_qualifiers(
+                            interpreter_, param.get());
 
                         param_idx++;
                     }
@@ -668,6 +675,8 @@ int64_t ExpressionEvaluator::evaluate_function_call_impl(const ASTNode *node) {
                         param_name, typed_val, param_type, param_type_name,
                         is_unsigned);
                 }
+                FunctionCallHelpers::apply_param_const_qualifiers(
+                    interpreter_, param.get());
 
                 param_idx++;
             }
@@ -945,6 +954,8 @@ int64_t ExpressionEvaluator::evaluate_function_call_impl(const ASTNode *node) {
                             param_name, typed_val, param_type, param_type_name,
                             is_unsigned);
                     }
+                    FunctionCallHelpers::apply_param_const_qualifiers(
+                        interpreter_, param.get());
 
                     param_idx++;
                 }
@@ -3019,6 +3030,8 @@ int64_t ExpressionEvaluator::evaluate_function_call_impl(const ASTNode *node) {
                     var.is_assigned = true;
                     var.type = param->type_info; // パラメータの型情報を使用
                     interpreter_.current_scope().variables[param->name] = var;
+                    FunctionCallHelpers::apply_param_const_qualifiers(
+                        interpreter_, param);
                 }
 
                 // 関数本体を実行
